@@ -8,7 +8,9 @@ stdin : JSON {"cases": [case, ...], "want_src": bool}    (or a bare list of case
           "gen": [[c, pos], ...]          bases written generic-subscripted: `Kb[T]`
           "mem": [[c, [[name, doc, kind], ...]], ...]   members: name index; doc: null | 0 (empty string) | k (text "doc<k>");
                                                         kind 0 method `f<name>`, 1 class variable `v<name>`
-          "pkg": bool}                    modules are m0.. (false) or pk.m0.. inside a package (true)
+          "pkg": bool,                    modules are m0.. (false) or pk.m0.. inside a package (true)
+          "hid": [[c, n], ...]}           privacy rules (as --privacy=HIDDEN:<fullname>): n = -1 the whole class K<c>,
+                                          otherwise the member numbered n (name + 100 * kind) of class K<c>
 stdout: JSON list of observations
   {"impl": {"crash": null | str,
             "classes": {c: {"mro": [ids] (Class.mro(include_external=True)), "mro_int": [ids] (Class.mro()),
@@ -134,6 +136,14 @@ def observe_impl(case, src):
     try:
         system = model.System()
         system.options.verbosity = -5
+        where = {c: case['mod'][i] for i, (c, _) in enumerate(case['h'])}
+        rules = []
+        for c, n in case.get('hid', []):
+            full = '%s.K%d' % (modname(case, where[c]), c)
+            if n >= 0:
+                full += '.' + mname(n % 100, n // 100)
+            rules.append((model.PrivacyClass.HIDDEN, full))
+        system.options.privacy = rules          # what --privacy=HIDDEN:<fullname> stores
         builder = system.systemBuilder(system)
         for name, text in src.items():
             if name == 'pk':
@@ -199,6 +209,7 @@ def observe_impl(case, src):
             names = [a.name for a in attrs if isinstance(a, (model.Function, model.Attribute))]
             chains.append([[cid(b.fullName()) for b in baselist], names])
         o['chains'] = chains
+        o['visible'] = bool(ob.isVisible)
         out[str(c)] = o
     return out
 
